@@ -114,6 +114,13 @@ def _cmp_table(w, t2, ref, meta, oracle, what):
                % (what, got, meta['date']))
 
 
+def _pathform(path, w):
+    """a path as str or as pathlib.Path (both are paths to the loader)"""
+    import pathlib
+    w.file_counter += 1
+    return pathlib.Path(path) if w.file_counter % 3 == 0 else path
+
+
 @probe('c02_json')
 def c02_json(w, ev, slot):
     import biom
@@ -251,7 +258,7 @@ def c02_json(w, ev, slot):
                 plain_path = path
                 with open(path, 'w', encoding='utf8', newline='') as f:
                     f.write(text)
-                t2 = biom.load_table(path)
+                t2 = biom.load_table(_pathform(path, w))
                 os.unlink(path)
             else:
                 # gzip content is recognised from the file itself, whatever
@@ -263,7 +270,7 @@ def c02_json(w, ev, slot):
                     path = plain_path
                 with gzip.open(path, 'wb') as f:
                     f.write(text.encode('utf8'))
-                t2 = biom.load_table(path)
+                t2 = biom.load_table(_pathform(path, w))
                 os.unlink(path)
         except Exception as e:  # noqa
             if path and os.path.exists(path):
@@ -456,7 +463,7 @@ def c03_tsv(w, ev, slot):
                 plain_path = path
                 with open(path, 'w', encoding='utf8', newline='\n') as f:
                     f.write(text)
-                t2 = biom.load_table(path)
+                t2 = biom.load_table(_pathform(path, w))
                 os.unlink(path)
             else:
                 path = store.new_path(w, ('.tsv.gz', '.txt', '.GZ',
@@ -466,7 +473,7 @@ def c03_tsv(w, ev, slot):
                     path = plain_path
                 with gzip.open(path, 'wb') as f:
                     f.write(text.encode('utf8'))
-                t2 = biom.load_table(path)
+                t2 = biom.load_table(_pathform(path, w))
                 os.unlink(path)
         except Violation:
             raise
